@@ -59,6 +59,8 @@ SmallPool == {
     << <<"for", "k", ArrE(<<KB, KC>>)>> >> >>,
   Std("objectRemoveKey", <<ObjE(<<Fd("a", "d", N(1)), Fd("b", "h", N(2)), Fd("c", "d", N(3))>>), KA>>),
   Std("objectRemoveKey", <<ObjE(<<Fd("a", "d", N(1)), Fd("b", "d", Dot(Self, "a"))>>), KB>>),
+  Std("objectRemoveKey", <<ObjE(<<Fd("a", "h", N(1)), Fd("b", "v", N(2)), Fd("c", "d", N(3))>>), KA>>),
+  Std("objectRemoveKey", <<ObjE(<<Fd("a", "v", N(1)), Fd("b", "h", N(2))>>), KB>>),
   Std("mergePatch", <<ObjE(<<Fd("a", "d", N(1)), Fd("b", "d", ObjE(<<Fd("c", "d", N(2))>>))>>),
                       ObjE(<<Fd("a", "d", <<"null">>), Fd("b", "d", ObjE(<<Fd("a", "d", N(3))>>))>>)>>),
   Std("prune", <<ObjE(<<Fd("a", "d", <<"null">>), Fd("b", "d", ArrE(<<>>)), Fd("c", "d", N(4))>>)>>),
